@@ -290,9 +290,7 @@ def run_dq_slow(ops_list, order, inputs):
     n = len(order)
     tapes = [QuantumScript([qp.BasisState(np.array(bits_of(i, n)), wires=order)] + list(ops_list),
                            [qp.probs(wires=order)]) for i in inputs]
-    prog = DEV.preprocess_transforms()
-    batch, post = prog(tapes)
-    res = post(DEV.execute(batch))
+    res = qp.execute(tapes, DEV)      # full device pipeline (handles mid-circuit measurements)
     out = []
     for pr in res:
         pr = np.asarray(pr, dtype=float).reshape(-1)
@@ -332,7 +330,10 @@ def do_case(c):
             variants.append((rule.name, apply_rule(op, rule)))
         except Exception as ex:
             res["rules"].append({"name": rule.name, "dq": None, "gates": None, "why": f"rule raised {type(ex).__name__}: {ex}", "nw": len(order)})
-    if type(op).compute_decomposition is not getattr(qp.operation.Operator, "compute_decomposition", None):
+    legacy_override = not (Operator2 and isinstance(op, Operator2)) and \
+        getattr(type(op).compute_decomposition, "__func__", type(op).compute_decomposition) is not \
+        getattr(qp.operation.Operator.compute_decomposition, "__func__", qp.operation.Operator.compute_decomposition)
+    if legacy_override:
         try:
             variants.append(("<decomposition()>", list(op.decomposition())))
         except Exception:
